@@ -314,6 +314,20 @@ def run_C07(ctx):
                           % (vn, gname, ir['value'], payload, verdict.split()[1]), case_of(out, gname, variant=vn, input=payload, observed=ir['raw'], expected=verdict), interface='I6')
         elif ctx.evaluations % 997 == 1:
             ctx.sample(dict(grammar=gname, variant=vn, input=payload, value=ir['value'], replay=verdict))
+    # the action written for the k-th rule must run for the k-th production: the grammar object the tables are built from
+    # lists the productions in the order written
+    for gname, g in out['grammars'].items():
+        d = out['dumps'].get(gname)
+        if not d or not d.get('ok'):
+            continue
+        sname = {s['id']: s['name'] for s in d['symbols']}
+        for k, (r, dr) in enumerate(zip(g['rules'], d['rules'][1:])):
+            want = (gram.internal_name(g, ('n', r['lhs'])), [gram.internal_name(g, x) for x in r['rhs']])
+            got = (sname.get(dr['lhs']), [sname.get(x) for x in dr['rhs']])
+            if want != got:
+                ctx.violation('counterexample', 'grammar %s: the action written for rule %d (%s -> %s) is attached to production %d of the generated parser, which is %s -> %s'
+                              % (gname, k + 1, want[0], ' '.join(want[1]), k + 1, got[0], ' '.join(map(str, got[1]))), case_of(out, gname, observed=str(got), expected=str(want)), interface='I1')
+                break
     lens = set()
     for g in out['grammars'].values():
         for r in g['rules']:
